@@ -126,7 +126,7 @@ pub fn property() -> Property {
             SubCheck::tape("rings_long", "as rings with a horizon of up to 100000 Tslot", |t, obs| ring_case(t, obs, 100_000)),
         ],
         plan: |tier| match tier {
-            Tier::Quick => vec![Step::Pbt { kind: "rings", cases: 320, max_len: 64 }],
+            Tier::Quick => vec![Step::Pbt { kind: "rings", cases: 640, max_len: 64 }],
             Tier::Thorough => vec![
                 Step::Pbt { kind: "rings", cases: 6000, max_len: 64 },
                 Step::Pbt { kind: "rings_long", cases: 300, max_len: 64 },
